@@ -162,3 +162,38 @@ package schema
 //@   ensures wf(l) && pending(l) == 0
 //@   ensures item.Start >= 0 && item.Start <= item.End
 //@   loop 1 invariant wf(l) && pending(l) == 0 && item.Start >= 0 && item.Start <= item.End
+
+// ---- parse errors: positions and rendering (C12)
+//@ spec wferr(e *ParseError) bool = e != nil && e.p != nil && e.p.lexer != nil
+
+//@ func (*ParseError).toSrcPos
+//@   props C12
+//@   modifies nothing
+//@   requires wferr(e)
+//@   ensures[C12] line-range: srcPos.Line >= 1 && srcPos.Line <= nlp(e.p.lexer.input, len(e.p.lexer.input)) + 1 && srcPos.Col >= 0
+//@   loop 1 invariant srcPos.Line == 1 + nlp(e.p.lexer.input, $pos) && srcPos.Col >= 0
+
+//@ func (*ParseError).rows
+//@   props C12
+//@   modifies nothing
+//@   requires wferr(e)
+//@   ensures len(result) == nlp(e.p.lexer.input, len(e.p.lexer.input)) + 1
+
+//@ func (*ParseError).Error
+//@   props C12
+//@   modifies nothing
+//@   requires wferr(e)
+//@   opt dead-ok meta error
+//@   loop 1 invariant line >= 0
+
+//@ func (*ParseError).ToAPI
+//@   props C12
+//@   modifies nothing
+//@   requires wferr(e)
+//@   ensures result != nil && result.Start.Line >= 1 && result.End.Line >= 1
+
+//@ func (*ParseError).ToProto
+//@   props C12
+//@   modifies nothing
+//@   requires wferr(e)
+//@   ensures result != nil
